@@ -28,6 +28,9 @@ def c03(e2e):
     runs = []
     for k in (1, 2, 3):
         runs.append({"harness": "vxH03Respond", "args": [str(k)], "files": F, "reach": ["done"], "bounds": f"{k} answers (any mix of Rstat/Rerror/Rclunk) to a request with arbitrary status bits"})
+    for n in ((70,) if len(e2e) <= 4 else (70, 130)):
+        runs.append({"harness": "vxH03Burst", "args": [str(n)], "files": F, "preempt": 0, "free_switches": -1, "reach": ["done"],
+                     "bounds": f"{n} Treads outstanding at once (more than the 64 spare reply buffers a connection keeps), all held in the implementation and then released; deterministic schedule"})
     for (n, maxpend, outcome, oneseg, P) in e2e:
         # two goroutines of the implementation answering at once necessarily write the reply buffer concurrently:
         # that workload is outside C19, so the race detector is off for it
